@@ -371,3 +371,162 @@ def check_unit_elimination(ctx, rep, f, rule=RULE + '.M16'):
         rep.undecided(rule, f, 'def ' + f.name, 'outside the evaluator: {}'.format(e))
         return
     rep.holds(rule, f, 'def ' + f.name, 'on {} runs (six model grammars: unit cycles with an exit, a start variable that only reaches unit rules, a self-loop, no unit rule; two iteration orders of the variable set) no unit rule is left and the words up to length 3 are unchanged'.format(cases))
+
+
+# ---- NFA union / concatenation / star on model NFAs ---------------------------------------------------------------------------
+
+def _nfa(Q, Sigma, trans, q0, F, eps=''):
+    delta = {}
+    for (p, a, q) in trans:
+        delta.setdefault((p, a), set()).add(q)
+    return Obj('NFA', Q=set(Q), Sigma=set(Sigma), delta=delta, q0=q0, F=set(F), epsilon=eps)
+
+
+def _nfa_class(Q, Sigma, delta, q0, F, epsilon='', check_validity=True):
+    return Obj('NFA', Q=Q, Sigma=Sigma, delta=delta, q0=q0, F=F, epsilon=epsilon)
+
+
+def _nfa_lang(N, alphabet, k):
+    f = N._f
+    delta, eps = f['delta'], f['epsilon']
+
+    def close(S):
+        S = set(S)
+        todo = list(S)
+        while todo:
+            q = todo.pop()
+            for q1 in delta.get((q, eps), ()):
+                if q1 not in S:
+                    S.add(q1)
+                    todo.append(q1)
+        return S
+    out = set()
+    for n in range(k + 1):
+        for w in itertools.product(sorted(alphabet), repeat=n):
+            S = close({f['q0']})
+            for a in w:
+                S = close({q1 for q in S for q1 in delta.get((q, a), ())}) if a != eps and a in f['Sigma'] else set()
+            if S & set(f['F']):
+                out.add(''.join(w))
+    return out
+
+
+_NFAS = {
+    'a*+b': (['p0', 'p1', 'p2'], ['a', 'b'], [('p0', '', 'p1'), ('p1', 'a', 'p1'), ('p0', 'b', 'p2')], 'p0', ['p1', 'p2'], ''),
+    'c': (['r0', 'r1'], ['c'], [('r0', 'c', 'r1')], 'r0', ['r1'], ''),
+    'a (states q0 q1)': (['q0', 'q1'], ['a'], [('q0', 'a', 'q1')], 'q0', ['q1'], ''),
+    '(ab)* (initial state final)': (['s0', 's1'], ['a', 'b'], [('s0', 'a', 's1'), ('s1', 'b', 's0')], 's0', ['s0'], ''),
+    "e (epsilon '')": (['m0', 'm1'], ['e'], [('m0', 'e', 'm1')], 'm0', ['m1'], ''),
+    "x (epsilon 'e')": (['n0', 'n1', 'n2'], ['x'], [('n0', 'e', 'n1'), ('n1', 'x', 'n2')], 'n0', ['n2'], 'e'),
+    'b + ba (two final states, one with a way on)': (['t0', 't1', 't2'], ['a', 'b'], [('t0', 'b', 't1'), ('t1', 'a', 't2')], 't0', ['t1', 't2'], ''),
+}
+_NFA_PAIRS = [('a*+b', 'c'), ('c', 'a*+b'), ('a (states q0 q1)', 'c'), ('(ab)* (initial state final)', 'a*+b'), ("e (epsilon '')", "x (epsilon 'e')"),
+              ('b + ba (two final states, one with a way on)', 'c'), ('a*+b', '(ab)* (initial state final)')]
+
+
+def _snapshot(N):
+    f = N._f
+    return (set(f['Q']), set(f['Sigma']), {k: set(v) for k, v in f['delta'].items() if v}, f['q0'], set(f['F']), f['epsilon'])
+
+
+def check_nfa_operation(ctx, rep, f, op, rule=RULE + '.M17'):
+    """nfa_union / nfa_concatenation / nfa_repetition on model NFAs: the result is a valid NFA whose words up to length 4 are
+    exactly L1 u L2 / L1.L2 / L*; the operands are untouched.  The models have several final states with DIFFERENT ways on,
+    a final initial state, state names that collide with generated names, and operands with different epsilon symbols."""
+    K = 4
+    cases = 0
+    classes = {'NFA': _nfa_class, 'IdentifierGenerator': lambda index=0: Obj('IdentifierGenerator', index=index)}
+    try:
+        jobs = [(n,) for n in _NFAS if "epsilon 'e'" not in n] if op == 'star' else _NFA_PAIRS
+        for names in jobs:
+            for order in ('asc', 'desc'):
+                Ns = [_nfa(*_NFAS[n]) for n in names]
+                snaps = [_snapshot(N) for N in Ns]
+                alphabet = set().union(*[N._f['Sigma'] for N in Ns])
+                langs = [_nfa_lang(N, alphabet, K) for N in Ns]
+                if op == 'union':
+                    want = langs[0] | langs[1]
+                elif op == 'concat':
+                    want = {u + v for u in langs[0] for v in langs[1] if len(u + v) <= K}
+                else:
+                    want, frontier = {''}, {''}
+                    while frontier:
+                        frontier = {u + v for u in frontier for v in langs[0] if v and len(u + v) <= K} - want
+                        want |= frontier
+                what = 'on ' + ' and '.join('"{}"'.format(n) for n in names)
+                ok, got = _run(rule, rep, f, lambda: _interp(ctx, order, classes=classes, max_steps=200000).call(f, Ns), what)
+                if not ok:
+                    return
+                if not isinstance(got, Obj) or got._cls != 'NFA':
+                    raise Unsupported('the result is not an NFA built by the constructor')
+                cases += 1
+                g = got._f
+                delta = {k: set(v) for k, v in dict(g['delta']).items() if v}
+                Q, eps = set(g['Q']), g['epsilon']
+                if g['q0'] not in Q or not set(g['F']) <= Q or eps in set(g['Sigma']) or any(p not in Q or not set(v) <= Q or (a != eps and a not in set(g['Sigma'])) for (p, a), v in delta.items()):
+                    rep.violates(rule, f, 'def ' + f.name, '{} the result is not a valid NFA (initial / final state or a transition outside the states, a label outside the alphabet, or epsilon inside it)'.format(what))
+                    return
+                have = _nfa_lang(Obj('NFA', Q=Q, Sigma=set(g['Sigma']), delta=delta, q0=g['q0'], F=set(g['F']), epsilon=eps), alphabet, K)
+                if have != want:
+                    extra, missing = sorted(have - want), sorted(want - have)
+                    rep.violates(rule, f, 'def ' + f.name, '{} the words up to length {} of the result are not those of the {}: {}'.format(
+                        what, K, {'union': 'union', 'concat': 'concatenation', 'star': 'iteration'}[op],
+                        'it accepts {!r}, which is not in the language'.format(extra[0]) if extra else 'it rejects {!r}, which is in the language'.format(missing[0])))
+                    return
+                if [_snapshot(N) for N in Ns] != snaps:
+                    rep.violates(rule, f, 'def ' + f.name, '{} an operand is modified'.format(what))
+                    return
+    except (Unsupported, RecursionError) as e:
+        rep.undecided(rule, f, 'def ' + f.name, 'outside the evaluator: {}'.format(e))
+        return
+    rep.holds(rule, f, 'def ' + f.name, 'on {} runs (model NFAs with several final states that have different ways on, a final initial state, state names q0 / q1, operands with different epsilon symbols; two iteration orders of sets) the result is a valid NFA with exactly the words up to length {} of the {}, and the operands are untouched'.format(
+        cases, K, {'union': 'union', 'concat': 'concatenation', 'star': 'iteration'}[op]))
+
+
+# ---- readers of subset names invert the writer -------------------------------------------------------------------------------
+
+def check_subset_name_readers(ctx, rep, host, writer, rule='R-IO.inv'):
+    """the local helpers of the NFA-to-DFA checker that decode a DFA state name `{q0,q1}` back into a set of NFA states invert
+    dfa.print_state_set -- on the empty set (the dead state of every partial NFA), a singleton and larger sets.  The decoder is
+    found by what it does (one parameter, splits a string), not by its name."""
+    import re as _re
+    stubs = {}
+    for fn in ('fullmatch', 'match', 'search'):
+        stubs['re.' + fn] = (lambda interp, args, kwargs, fn=fn: getattr(_re, fn)(*args, **kwargs))
+    n = 0
+    for g in host.nested.values():
+        own = [x for x in g.body_nodes()]
+        import ast as _ast
+        if len(g.params) != 1 or not any(isinstance(x, _ast.Call) and isinstance(x.func, _ast.Attribute) and x.func.attr == 'split' for x in own):
+            continue
+        n += 1
+        try:
+            for S in (set(), {'q0'}, {'q0', 'q1'}, {'p', 'q', 'r'}):
+                for order in ('asc',):
+                    it = _interp(ctx, order, stubs=stubs)
+                    name = it.call(writer, [set(S)])
+                    if not isinstance(name, str):
+                        raise Unsupported('the writer does not return a string')
+                    try:
+                        got = it.call(g, [name])
+                    except Raised as ex:
+                        if ex.name in ('TypeError', 'AttributeError'):
+                            raise Unsupported('the evaluator met a {} it cannot attribute to the code'.format(ex.name))
+                        rep.violates(rule, g, 'def ' + g.name, 'raises {} on the name {!r} that print_state_set gives to the set {}'.format(ex.name, name, sorted(S)))
+                        break
+                    if hasattr(got, '__next__'):
+                        got = set(got)
+                    if not isinstance(got, (set, frozenset, list)):
+                        raise Unsupported('the reader does not return a collection')
+                    if set(got) != S:
+                        rep.violates(rule, g, 'def ' + g.name, 'the name {!r}, which print_state_set gives to the set {}, is read back as {}: {}'.format(
+                            name, sorted(S), sorted(got), 'the dead state {} of a partial NFA is taken for a set with one nameless element, so a correct answer is rejected' if not S else 'the checker compares the wrong sets'))
+                        break
+                else:
+                    continue
+                break
+            else:
+                rep.holds(rule, g, 'def ' + g.name, 'reads the names that print_state_set gives to the empty set, a singleton, a pair and a triple back as those sets')
+        except (Unsupported, RecursionError) as e:
+            rep.undecided(rule, g, 'def ' + g.name, 'outside the evaluator: {}'.format(e))
+    return n
